@@ -115,6 +115,7 @@ def alphabet(kind):
     cls = type(make(kind))
     ops = ["set:" + p for p in observe.settable_properties(cls)]
     ops += ["bad:" + p for p in observe.settable_properties(cls) if p not in ("center", "centroid")]
+    ops += ["badcentre:" + p for p in observe.settable_properties(cls) if p in ("center", "centroid")]
     ops += [m for m in METHOD_OPS if hasattr(cls, m)]
     if hasattr(cls, "vertices") and "centroid" in observe.settable_properties(cls):
         ops.append("selfview:centroid")
@@ -212,6 +213,22 @@ def step(rec, obj, op, arg, sig, state):
         r = call(obj.get_dihedral, 0, non[0])
         rec.check(isinstance(r, Raised) and r.type == "ValueError", "failing_op_raises_ValueError", dict(sig, op=op), got=repr(r)[:80])
         unchanged("after_failed_op")
+        return True, False
+    if op.startswith("badcentre:"):
+        # a centre target of the wrong shape ((3,1) column, two rows, a 4-vector, a string): whatever the setter makes of
+        # it, if it raises the shape must be what it was (no half-applied move)
+        bads = [np.array([[0.3], [-0.2], [0.1]]), np.array([[1.0, 2.0, 3.0], [4.0, 5.0, 6.0]]), np.array([1.0, 2.0, 3.0, 4.0]), "origin"]
+        val = bads[arg % len(bads)]
+        if not isinstance(call(setattr, copy.deepcopy(obj), name, val), Raised):
+            # some setters take such a value (a Circle stores any array as its centre); what the shape then is, is not
+            # covered by any listed property: tried on a copy only, the history goes on with the untouched object
+            rec.label("accepted_odd_centre_target")
+            return False, False
+        before = observe.canonical(observe.observe(obj))
+        r = call(setattr, obj, name, val)
+        rec.label("refused_centre_target")
+        rec.check(isinstance(r, Raised), "refusal_is_repeatable", dict(sig, op=op))
+        unchanged("after_refused_centre_")
         return True, False
     if op.startswith("selfview:"):
         # the target is handed over as a row view of the shape's own vertex array (`s.centroid = s.vertices[k]`):
@@ -366,12 +383,12 @@ def _enum_cases(tier):
     for kind in KINDS:
         ops = alphabet(kind)
         words = [[(o, 0)] for o in ops]
-        muts = [o for o in ops if not o.startswith(("read:", "bad:", "fail:"))]
+        muts = [o for o in ops if not o.startswith(("read:", "bad:", "fail:", "badcentre:"))]
         if kind == "ConvexSpheropolyhedron":  # populate is_inside-related caches before moving the core, then look again
             words += [[("read:is_inside", 0), (m_, 1), ("read:is_inside", 2)] for m_ in muts]
         for a in ops:
             for b in ops:
-                if a.startswith(("read:", "bad:", "fail:")) and b.startswith(("read:", "bad:", "fail:")):
+                if a.startswith(("read:", "bad:", "fail:", "badcentre:")) and b.startswith(("read:", "bad:", "fail:", "badcentre:")):
                     continue
                 words.append([(a, 0), (b, 1)])
         if tier == "thorough":
@@ -400,9 +417,9 @@ def _enum(case, rec):
 def _hist_case(draw, max_len):
     kind = draw(st.sampled_from(KINDS))
     ops = alphabet(kind)
-    muts = [o for o in ops if not o.startswith(("read:", "bad:", "fail:"))]
+    muts = [o for o in ops if not o.startswith(("read:", "bad:", "fail:", "badcentre:"))]
     reads = [o for o in ops if o.startswith("read:")]
-    bads = [o for o in ops if o.startswith(("bad:", "fail:"))]
+    bads = [o for o in ops if o.startswith(("bad:", "fail:", "badcentre:"))]
     n = draw(st.integers(1, max_len))
     word = []
     for _ in range(n):
